@@ -45,6 +45,11 @@ CHECKS = {
         technique='same exhaustive enumeration as C05; every necessarily-broken group without a forced break must be justified by a reference linearisation of its continuation (overflow, smart look-ahead overflow, or a later always_break); plus exhaustive width sweep around the one-line length of every corpus value',
         text='For every enumerated document, configuration and strategy, each group that the output proves broken and that contains no forced break must have a justification computed on the reference term (not by calling the implementation predicate). For values, every corpus value whose unbounded rendering is one line of L columns must print as that line at all widths/ribbons in L..L+2, 2L, 200. Eager breaking (off-by-one at exact fit, ribbon applied from the wrong origin) yields valid text that no pinned test notices; the enumeration reaches exact-fit configurations for every small document.',
         note='trusted: reference linearisation in mc/checks/_decisions.py (permissive where the statement is silent: a hoisted always_break later on the line also counts as justification); bound as C05'),
+    'C15': dict(
+        category='model_checking', design_ref='DESIGN.md 4/C15',
+        technique='explicit-state BFS over all operation histories up to a depth bound on the real registries (57 operations on a 6-class lattice with multiple inheritance), states merged by a canonical (implementation, reference-model) abstraction, every transition compared with the reference model, merges validated differentially',
+        text='Breadth-first search over every history of register-by-class / by-name / by-predicate, print and is_registered (all legal flag combinations) up to the depth bound; each transition restores a snapshot of the real registries, replays the history on the real package and compares the observed printer tag or boolean with an MRO-walk reference model. Canonical state hashing (tags renamed in order of appearance) makes depth 5-6 tractable, and every state reached by a second history has its complete outgoing observation vector recomputed and compared, so a wrong merge is reported rather than hidden. Dispatch after arbitrary interleavings is a statement about all histories, which four fixed test orders cannot settle.',
+        note='trusted: the reference model in mc/checks/c15.py (about 50 lines); is_registered(check_deferred=False) is constrained only where the statement/pinned tests constrain it; bound: depth 5 (quick) / 6 (thorough) on one lattice'),
 }
 
 ALL = ['C%02d' % i for i in range(1, 21)]
